@@ -467,6 +467,10 @@ class FieldTypeConstraint(Constraint):
         elif self.type == "referencePath"and not JSONPathChecker().is_reference_path(value):
              self.report(path, value, "a Reference Path", problems)
         elif self.type == "timestamp":
+            if not isinstance(value, str) or not value:
+                self.report(path, value, "an RFC3339 timestamp", problems)
+                return
+
             # Preprocess RFC3339 into template strptime format
             if value[-1] == "Z":
                 date = value[:-1]
